@@ -593,7 +593,7 @@ fn check() {
         "model_checking",
         coverage,
         vec![
-            "MTU >= 5 (MakeFragments asserts mtu > 4; quinn never reports less than ~1100 for a validated path)".into(),
+            "MTU >= 5 (MakeFragments asserts mtu > 4; the QUIC frame writer refuses a connection whose datagram limit - chosen by the peer - is smaller: checked on the real binary under C05)".into(),
             "expiry runs on the real clock: executions whose measured gaps are within 25 ms of the threshold are discarded and retried, never judged".into(),
             "id collisions between independent writers (one counter per QUIC session) are a wiring matter checked under C10, not here".into(),
         ],
